@@ -91,6 +91,63 @@ def make_case(args):
                 rec["exc"] = f"{type(e).__name__}: {str(e)[:200]}"
                 rec["exc_type"] = type(e).__name__
             out.append(rec)
+    # contract of the native entry point: specpart_wrap.c takes the data pointer and reads nk*nth floats forward, whatever
+    # the strides — so every array handed to it must be a C-contiguous float32 block of exactly that size, also when the
+    # caller's spectrum is a float32 view with negative / non-unit strides or transposed storage
+    import wavespectra.partition.partition as PP
+
+    class _Spy:
+        def __init__(self, real):
+            self.real, self.bad = real, []
+
+        def partition(self, arr, ihmax):
+            a = np.asarray(arr)
+            if not (a.flags.c_contiguous and a.dtype == np.float32 and a.ndim == 2):
+                self.bad.append(f"dtype={a.dtype} shape={a.shape} strides={a.strides} c_contiguous={bool(a.flags.c_contiguous)}")
+                arr = np.ascontiguousarray(a, dtype=np.float32)  # never let the native code read outside the buffer here
+            return self.real.partition(arr, ihmax)
+
+    real = PP.specpart.real if isinstance(PP.specpart, _Spy) or hasattr(PP.specpart, "real") else PP.specpart
+    spy = _Spy(real)
+    PP.specpart = spy
+    try:
+        nfv, ndv = rng.choice([4, 6, 9]), rng.choice([6, 8, 12])
+        fv, _ = gen.gen_freq(rng, nfv, kind="log")
+        dv, _ = gen.gen_dirs(rng, ndv, order="sorted")
+        Ev = gen.gen_spectrum(rng, nfv, ndv, kind="blobs")[0] + 0.03125
+        for dt in ("float32", "float64"):
+            base = gen.make_da(fv, dv, np.array([Ev, Ev * 0.5]), dtype=dt,
+                               extra=[("time", np.array(["2020-01-01T00", "2020-01-01T01"], dtype="datetime64[ns]"))])
+            views = {"dir_reversed": base.isel(dir=slice(None, None, -1)), "freq_reversed": base.isel(freq=slice(None, None, -1)),
+                     "dir_strided": base.isel(dir=slice(None, None, 2)), "dir_major": base.transpose("time", "dir", "freq"),
+                     "fortran": base.copy(data=np.asfortranarray(base.values))}
+            auxv = {k: xr.DataArray(np.full((2,), v), dims=["time"], coords={"time": base.time}) for k, v in
+                    (("wspd", 10.0), ("wdir", 45.0), ("dpt", 40.0))}
+            for vname, v in views.items():
+                for op in ("ptm1", "ptm2", "ptm3", "hp01"):
+                    spy.bad = []
+                    rec = dict(icase=icase, op=f"native_input:{op}", kind=f"{dt}:{vname}", nf=nfv, nd=ndv, fk="log", extra=1,
+                               freq=fv.tolist(), dirs=dv.tolist(), E=Ev.tolist())
+                    try:
+                        if op == "ptm3":
+                            v.spec.partition.ptm3(parts=2)
+                        elif op == "hp01":
+                            v.spec.partition.hp01(auxv["wspd"], auxv["wdir"], auxv["dpt"], swells=2)
+                        else:
+                            getattr(v.spec.partition, op)(auxv["wspd"], auxv["wdir"], auxv["dpt"], swells=2)
+                        rec["ok"] = True
+                    except Exception as e:
+                        if op == "hp01":
+                            rec["ok"] = True  # experimental method: only the buffer contract is looked at
+                        else:
+                            rec["exc"] = f"{type(e).__name__}: {str(e)[:200]}"
+                            rec["exc_type"] = type(e).__name__
+                    if spy.bad:
+                        rec.pop("ok", None)
+                        rec["contract"] = spy.bad[0]
+                    out.append(rec)
+    finally:
+        PP.specpart = real
     # invalid arguments must be rejected with ValueError
     E, _ = gen.gen_spectrum(rng, 6, 8, kind="blobs")
     f6, _ = gen.gen_freq(rng, 6, kind="log")
@@ -171,7 +228,11 @@ def run_check():
             def cls(x):
                 return "1" if x == 1 else "2" if x == 2 else "3+"
             ck.case((r["op"], r["kind"], cls(r["nf"]), cls(r["nd"])), True, sample={k: r[k] for k in ("op", "kind", "nf", "nd")})
-            if r.get("noexc"):
+            if r.get("contract"):
+                ck.fail(r["op"], f"the native routine was handed an array that is not a C-contiguous float32 block ({r['contract']}); the "
+                                 f"wrapper ignores strides and reads nk*nth floats from the data pointer: out-of-bounds / wrong memory", r,
+                        "native_input_contract")
+            elif r.get("noexc"):
                 ck.fail(r["op"], "invalid argument accepted (no exception)", r, "invalid_arg_accepted")
             elif "exc" in r:
                 if r["op"].startswith("invalid:"):
